@@ -173,6 +173,22 @@ def check_function(ck, f, rule, mode='reject', sources=None, accepted=None, only
         return 0
     bad = T.bad_masks()
     good = T.good_masks()
+    # a complement held in a temporary: inside = ~bad  (and the reverse)
+    for _ in range(2):
+        for n in all_nodes(f):
+            if isinstance(n, ast.Assign) and len(n.targets) == 1 and isinstance(n.targets[0], ast.Name):
+                v = n.value
+                inner = None
+                if isinstance(v, ast.UnaryOp) and isinstance(v.op, (ast.Invert, ast.Not)) and isinstance(v.operand, ast.Name):
+                    inner = v.operand.id
+                elif isinstance(v, ast.Call) and isinstance(v.func, ast.Attribute) and v.func.attr in ('logical_not', 'invert') and len(v.args) == 1 \
+                        and isinstance(v.args[0], ast.Name):
+                    inner = v.args[0].id
+                if inner is not None:
+                    if inner in bad:
+                        good.setdefault(n.targets[0].id, set()).update(bad[inner])
+                    if inner in good:
+                        bad.setdefault(n.targets[0].id, set()).update(good[inner])
     cfg = f.cfg
     nsinks = 0
     accepted = accepted or {}
